@@ -69,6 +69,27 @@ def delete_allocations_held(draw, d, PROFILE):
         ['held-on-%d-providers' % min(len(spread[c]), 3)], consumers=[c])
 
 
-EXTRA = {'move_subtree': move_subtree,
+def put_rp_aggregates_swap(draw, d, PROFILE):
+    """PUT aggregates that removes one association and adds another in one
+    request (one write unit: the whole replacement)."""
+    have = {}
+    for (p, a) in d.rp_aggs:
+        have.setdefault(p, set()).add(a)
+    if not have:
+        return machine.build(draw, d, PROFILE, 'put_rp_aggregates')
+    u = draw(st.sampled_from(sorted(have)))
+    cur = sorted(have[u])
+    drop = draw(st.sampled_from(cur))
+    pool = [a for a in gen.AGGS + [gen.GHOST_AGG] if a not in cur]
+    new = [a for a in cur if a != drop] + [draw(st.sampled_from(pool))]
+    v = (1, draw(st.sampled_from([39, 19, 18, 1])))
+    body = {'aggregates': new, 'resource_provider_generation':
+            d.providers[u]['generation']} if v >= (1, 19) else new
+    return gen.R('PUT', '/resource_providers/%s/aggregates' % u, v, body,
+                 'put_rp_aggregates', ['adds-and-removes'], target=u)
+
+
+EXTRA = {'put_rp_aggregates_swap': put_rp_aggregates_swap,
+         'move_subtree': move_subtree,
          'post_allocations_existing': post_allocations_existing,
          'delete_allocations_held': delete_allocations_held}
